@@ -212,7 +212,14 @@ def check_case(case) -> Result:
         warnings.simplefilter("ignore")
         cfg = cut(e2e.sv_config, **kw)
     refs, info = reference(case, seq, psi0=psi0)
-    res = cut(SVBackend(seq, config=cfg).run)
+    init_before = cfg.initial_state.data.clone() if psi0 is not None else None
+    backend = SVBackend(seq, config=cfg)
+    res = cut(backend.run)
+    if case["seed"] % 3 == 0:  # history: the second run of the same backend object is the one judged
+        res = cut(backend.run)
+        r.label("second_run_of_the_same_backend")
+    if init_before is not None and float((cfg.initial_state.data - init_before).abs().max()) > 1e-14:
+        r.fail("run_modified_the_configured_initial_state", f"max change {float((cfg.initial_state.data - init_before).abs().max()):.3e}")
 
     grid = info["grid"]
     nsteps = len(grid) - 1
